@@ -40,6 +40,21 @@ type conn struct {
 	failed    bool
 	dataErr   bool // the last octets of the stream are returned TOGETHER with io.EOF (allowed by io.Reader)
 	readSoFar int
+	// seg: sizes of the arrival segments still (partly) buffered - non-blocking side only. A reader built on a
+	// chain of network buffers sees all of them through Peek / Size / Discard, but one Read call hands out at
+	// most the rest of the first segment (io.Reader allows fewer octets than asked for).
+	seg []int
+}
+
+func (c *conn) consumeSeg(n int) {
+	for n > 0 && len(c.seg) > 0 {
+		if c.seg[0] > n {
+			c.seg[0] -= n
+			return
+		}
+		n -= c.seg[0]
+		c.seg = c.seg[1:]
+	}
 }
 
 // timeoutErr is a net.Error-style timeout (what a read deadline produces).
@@ -69,6 +84,7 @@ func (c *conn) Discard(n int) (int, error) {
 		return d, errShort
 	}
 	c.buf = c.buf[n:]
+	c.consumeSeg(n)
 	return n, nil
 }
 func (c *conn) Size() int { return len(c.buf) }
@@ -86,11 +102,16 @@ func (c *conn) Read(p []byte) (int, error) {
 		c.failed = true
 		return 0, c.failErr
 	}
-	n := copy(p, c.buf)
+	avail := c.buf
+	if len(c.seg) > 0 && c.seg[0] < len(avail) {
+		avail = avail[:c.seg[0]]
+	}
+	n := copy(p, avail)
 	if armed && c.readSoFar+n > c.failAt {
 		n = c.failAt - c.readSoFar
 	}
 	c.buf = c.buf[n:]
+	c.consumeSeg(n)
 	c.readSoFar += n
 	if c.dataErr && len(c.buf) == 0 && len(c.pending) == 0 && n > 0 {
 		return n, io.EOF
@@ -157,8 +178,13 @@ func (c Case) chunks(s []byte) [][]byte {
 }
 
 func newCodec(name string) codec.Codec {
-	if name == "smpp" {
+	switch name {
+	case "smpp":
 		return codec.NewSMPPCodec()
+	case "smpp-zero":
+		return new(codec.SMPPCodec) // the types are exported and have no fields: a zero value is a codec too
+	case "cmpp-zero":
+		return new(codec.CMPPCodec)
 	}
 	return codec.NewCMPPCodec()
 }
@@ -205,6 +231,7 @@ func run(c Case) *vk.Violation {
 		arrived := 0
 		for ci, ch := range c.chunks(s) {
 			cn.buf = append(append([]byte{}, cn.buf...), ch...) // the network layer refills its buffer (old views die)
+			cn.seg = append(cn.seg, len(ch))
 			arrived += len(ch)
 			for iter := 0; ; iter++ {
 				if iter > len(frames)+2 {
@@ -364,7 +391,7 @@ var bodyGen = rapid.Custom(func(t *rapid.T) []byte {
 })
 
 func drawCase(t *rapid.T) Case {
-	c := Case{Codec: rapid.SampledFrom([]string{"cmpp", "smpp"}).Draw(t, "codec"), Mode: rapid.SampledFrom([]string{"nonblocking", "blocking"}).Draw(t, "mode"),
+	c := Case{Codec: rapid.SampledFrom([]string{"cmpp", "smpp", "cmpp", "smpp", "cmpp-zero", "smpp-zero"}).Draw(t, "codec"), Mode: rapid.SampledFrom([]string{"nonblocking", "blocking"}).Draw(t, "mode"),
 		NilShort: rapid.Bool().Draw(t, "nilshort"), FailAt: -1}
 	n := rapid.IntRange(1, 12).Draw(t, "nframes")
 	total := 0
@@ -522,7 +549,7 @@ func TestEverySingleCut(t *testing.T) {
 			frames = append(frames, vk.Hex(f))
 			total += len(f)
 		}
-		for _, cdc := range []string{"cmpp", "smpp"} {
+		for _, cdc := range []string{"cmpp", "smpp", "cmpp-zero", "smpp-zero"} {
 			for cut := 1; cut < total; cut++ {
 				idx++
 				eval(t, Case{Codec: cdc, Mode: "nonblocking", Frames: frames, Cuts: []int{cut}, NilShort: cut%2 == 0, FailAt: -1}, true)
